@@ -114,6 +114,7 @@ type loopInfo struct {
 	decAt   []string // variant values at header
 	rangeN  string
 	rangePhi *ssa.Phi
+	before   ssa.Instruction // call-site translators: only names defined before this instruction are in scope
 }
 
 func (vc *funcVC) addObl(o *obligation) {
@@ -245,6 +246,13 @@ func (vc *funcVC) run() (err error) {
 				Goal: and(r.cond, not(f)), Pos: fmt.Sprintf("%s:%d", relPath(cl.File), cl.Line), Clause: "invariant " + cl.Src + "   [at the return in " + r.pos + "]", Props: []string{vc.layer}, Inputs: vc.inputTerms()})
 		}
 	}
+	// `noreturn` on a module function: no return instruction is reachable (the function ends in a panic on every path)
+	if vc.ct != nil && vc.ct.NoReturn && !vc.ct.External {
+		for i, r := range fr.rets {
+			vc.addObl(&obligation{Name: fmt.Sprintf("noreturn@ret%d", i+1), Kind: "ensures", Label: "noreturn", Goal: r.cond,
+				Pos: fmt.Sprintf("%s:%d", relPath(vc.ct.File), vc.ct.Line), Clause: "noreturn   [the return in " + r.pos + " is reachable]", Props: []string{vc.layer}, Inputs: vc.inputTerms()})
+		}
+	}
 	// a call-site clause that matched no call would silently check nothing
 	if vc.ct != nil {
 		for _, cl := range vc.ct.clausesFor(vc.layer) {
@@ -356,12 +364,29 @@ func (vc *funcVC) contractTrans(ct *contract, fn *ssa.Function, results []string
 				tr.vars["self"] = tr.vars[name]
 			}
 		}
+		// a captured variable: go/ssa passes its address; in a contract its name denotes the variable's value when the
+		// closure is entered (NAME$addr, used by addrof(NAME), is the variable itself)
 		for _, fv := range fn.FreeVars {
-			tr.vars[fv.Name()] = tvar{"fv_" + mangle(fv.Name()), vtype{vc.c.sortOf(fv.Type()), fv.Type()}}
+			bindFreeVar(vc.c, tr, fv, "fv_"+mangle(fv.Name()), cur, old)
 		}
 		bindResults(tr, vc.c, fn.Signature, results)
 	}
 	return tr
+}
+
+func bindFreeVar(c *smtctx, tr *trans, fv *ssa.FreeVar, addr string, cur, old *state) {
+	pt, ok := fv.Type().Underlying().(*types.Pointer)
+	if !ok {
+		tr.vars[fv.Name()] = tvar{addr, vtype{c.sortOf(fv.Type()), fv.Type()}}
+		return
+	}
+	st := old
+	if st == nil {
+		st = cur
+	}
+	el := pt.Elem()
+	tr.vars[fv.Name()] = tvar{c.loadAt(st, addr, el), vtype{c.sortOf(el), el}}
+	tr.vars[fv.Name()+"$addr"] = tvar{addr, vtype{"Ref", fv.Type()}}
 }
 
 func bindResults(tr *trans, c *smtctx, sig *types.Signature, results []string) {
@@ -1088,6 +1113,9 @@ func (fr *frame) loopTrans(li *loopInfo, st *state, phiVals map[*ssa.Phi]string)
 	for name, refs := range fr.debug {
 		var best *ssa.DebugRef
 		for _, d := range refs {
+			if li.before != nil && d.Block() == li.header && !instrBefore(d, li.before) {
+				continue // (call sites: a reference later in the block of the call is not in scope yet)
+			}
 			if d.Block().Dominates(li.header) && !li.body[d.Block()] {
 				if best == nil || best.Block().Dominates(d.Block()) {
 					best = d
@@ -1137,7 +1165,8 @@ func (fr *frame) loopTrans(li *loopInfo, st *state, phiVals map[*ssa.Phi]string)
 	}
 	// the hidden index of an enclosing `for ... range` loop: idx<ordinal of that loop>
 	for h, lo := range fr.loops {
-		if lo == nil || lo == li || !lo.body[li.header] {
+		if lo == nil || lo == li || (!lo.body[li.header] && !h.Dominates(li.header)) {
+			// (a block that leaves the loop - `...; break` - is not part of the natural loop but still sees its index)
 			continue
 		}
 		for _, ins := range h.Instrs {
@@ -1163,6 +1192,18 @@ func (fr *frame) loopTrans(li *loopInfo, st *state, phiVals map[*ssa.Phi]string)
 		}
 	}
 	return tr
+}
+
+func instrBefore(a, b ssa.Instruction) bool {
+	for _, ins := range a.Block().Instrs {
+		if ins == a {
+			return true
+		}
+		if ins == b {
+			return false
+		}
+	}
+	return false
 }
 
 func (fr *frame) regKey(a *ssa.Alloc) string { return "L_" + fr.prefix + a.Name() }
@@ -1262,6 +1303,9 @@ func (vc *funcVC) havoc(st, pre *state, ms *modset, why string, rootTerm func(ss
 	for k := range ms.real {
 		keys[k] = true
 	}
+	if ms.spawns {
+		vc.assumed["goroutines started inside "+why+": their effects are not part of the call's effect on the caller's objects (ownership discipline of C13: a spawned process works on the objects handed to it)"] = true
+	}
 	if len(keys) == 0 && len(ms.fresh) == 0 && len(ms.unknown) == 0 {
 		return
 	}
@@ -1330,11 +1374,30 @@ func (vc *funcVC) havoc(st, pre *state, ms *modset, why string, rootTerm func(ss
 				}
 			}
 		}
-		if sh.any {
+		if strings.HasPrefix(k, "F_") {
+			// a field array that is written gets a fresh version (other fields are other arrays), framed by where the
+			// written structs live: a struct embedded in another field, or elsewhere, keeps its value
+			if !sh.eany && len(sh.eparams) == 0 && (len(sh.efids) > 0 || sh.eelem || sh.eobj) {
+				var hit []string
+				var fh []string
+				for _, f := range sortedInts(sh.efids) {
+					fh = append(fh, fmt.Sprintf("(= (pfid (pbase (path fa!x))) %d)", f))
+				}
+				if len(fh) > 0 {
+					hit = append(hit, and("((_ is pfld) (pbase (path fa!x)))", or(fh...)))
+				}
+				if sh.eelem {
+					hit = append(hit, "((_ is pelem) (pbase (path fa!x)))")
+				}
+				if sh.eobj {
+					hit = append(hit, "((_ is pnil) (pbase (path fa!x)))")
+				}
+				c.assume(fmt.Sprintf("(forall ((fa!x Ref)) (! (=> (and (is_fld fa!x) %s) (= (select %s fa!x) (select %s fa!x))) :pattern ((select %s fa!x))))", not(or(hit...)), n, old, n))
+			}
 			continue
 		}
-		if strings.HasPrefix(k, "F_") {
-			continue // a field array that is written gets a fresh version; other fields are other arrays
+		if sh.any {
+			continue
 		}
 		if !strings.HasPrefix(k, "H_") {
 			// map arrays: only the maps named by the roots may have changed
